@@ -15,6 +15,7 @@ func init() {
 		NotDecided:  "TODO",
 		Assumptions: trustedBase,
 		Run: func(m *Model, s *Sink) {
+			m.RunLoadErr(s, "R-LOADERR")
 			m.RunPathAPI(s, "R-PATHAPI")
 			r := m.Roots()
 			var loadFns []*ssa.Function
